@@ -15,7 +15,8 @@ from vlib import geom
 from vlib.grids import position_grid, dense
 
 T_GRIDS = ["[0.3]", "[0.2, 0.35]", "[0.15, 0.3, 0.4]", "linspace(0.2, 0.8, 4)", "[0.1, 0.5]", "[0.314, 0.333, 0.507]", "[0.2718]",
-           "[0.001, 0.0025]", "[2.5, 4.0, 4.5]", "[0.2, 0.3001, 0.4]", "linspace(0.1, 0.2, 8)"]
+           "[0.001, 0.0025]", "[2.5, 4.0, 4.5]", "[0.2, 0.3001, 0.4]", "linspace(0.1, 0.2, 8)",
+           "[1.0, 1.001, 1.002]", "[2, 2.001]", "linspace(1, 1.005, 6)", "[0.4, 0.15, 0.3]"]
 
 
 def radii_of(text):
@@ -65,6 +66,12 @@ def judge(case):
         return [("points", f"{o} {t}: position grid points are not direction x radius in shell-major order")], {}
     info = {"faces": 0, "faces_ge5": 0, "faces_centrally_symmetric": 0, "open_cells": 0}
     scale = r[-1]
+    # conditioning: Voronoi vertices of closely spaced shells are circumcentres of flat tetrahedra; their relative accuracy
+    # degrades like r / delta_r (measured: library 1.5e-9 off at r/delta_r = 1000..2000 while two independent routes of this
+    # oracle agree to 1e-10). Tolerances are the nominal ones up to r/delta_r = 50 and grow linearly beyond.
+    rr = np.concatenate([r, [r[-1] + (r[-1] - r[-2] if len(r) > 1 else r[-1])]])
+    cond = max(1.0, float(rr.max() / np.diff(np.concatenate([[0.0], rr])).min()) / 50.0)
+    info["conditioning_factor"] = round(cond, 2)
     # volumes
     for i in range(n):
         want, bounded = geom.euclid_cell_volume(P, i)
@@ -72,7 +79,7 @@ def judge(case):
             info["open_cells"] += 1
             out.append(("open_cell", f"{o} {t}: cell {i} is unbounded even with the extra shell; reported volume {vol[i]!r}"))
             continue
-        if not (vol[i] > 0) or abs(vol[i] - want) > 1e-9 * want:
+        if not (vol[i] > 0) or abs(vol[i] - want) > 1e-9 * cond * want:
             out.append(("volume", f"{o} {t}: volume of cell {i} = {vol[i]!r}, Euclidean Voronoi cell volume {want!r}"))
     # pattern / symmetry
     if not np.array_equal(adj, adj.T):
@@ -101,7 +108,7 @@ def judge(case):
         elif not (bor[i, j] > 0):
             tag = "zero_border"
             out.append((tag, f"{o} {t}: border ({i},{j}) = {bor[i, j]!r} is not strictly positive; true face area {area!r}"))
-        elif abs(bor[i, j] - area) > 1e-7 * area + 1e-12 * scale ** 2:
+        elif abs(bor[i, j] - area) > 1e-7 * cond * area + 1e-12 * scale ** 2:
             out.append(("border", f"{o} {t}: border ({i},{j}) = {bor[i, j]!r}, area of the shared Euclidean face {area!r} "
                                   f"({len(poly)} vertices)"))
         d = np.linalg.norm(P[i] - P[j])
